@@ -63,6 +63,11 @@ def commentTok : Token := { kind := .comment, str := "# c" }
     by an adjacent string) -/
 def atomTok (v : Val) : Token := { kind := .number, str := "atom", atom := some v }
 
+/-- a NUMBER token after a minus sign: `ast.literal_eval('-' + text)` is `v` -/
+def negTok (v : Val) : Token := { kind := .number, str := "num", neg := some v }
+/-- a STRING token whose literal value is `s` -/
+def strTok (s : String) : Token := { kind := .string, str := "str", atom := some (.str s) }
+
 /-- a run of trivia: `true` = comment, `false` = line break inside brackets -/
 def triv : List Bool → List Token
   | [] => []
@@ -95,6 +100,21 @@ inductive L where
   | tuple (open_ : List Bool) (first : L) (n1 : List Bool) (items : List (L × List Bool))
       (final : Option L) (after : List Bool)
   | paren (open_ : List Bool) (x : L) (after : List Bool)
+  /-- `- 3`: a minus sign, then a number -/
+  | natom (j1 : List Bool) (v : Val) (after : List Bool)
+  /-- adjacent string literals `'a' 'b' …` (line breaks / comments between them inside brackets) -/
+  | strs (s0 : String) (j0 : List Bool) (more : List (String × List Bool))
+  /-- `{k: v, …}` with trivia after the opener, every colon, every comma and the closer -/
+  | dict (open_ : List Bool) (entries : List (L × List Bool × L × List Bool))
+      (final : Option (L × List Bool × L)) (after : List Bool)
+
+def joinStrs : List (String × List Bool) → String
+  | [] => ""
+  | (s, _) :: rest => s ++ joinStrs rest
+
+def renderStrs : List (String × List Bool) → List Token
+  | [] => []
+  | (s, j) :: rest => strTok s :: (triv j ++ renderStrs rest)
 
 mutual
   def val : L → PVal
@@ -103,6 +123,15 @@ mutual
     | .tuple0 _ _ => .tuple []
     | .tuple _ f _ items final _ => .tuple (val f :: (valItems items ++ valFinal final))
     | .paren _ x _ => val x
+    | .natom _ v _ => .lit v
+    | .strs s0 _ more => .lit (.str (s0 ++ joinStrs more))
+    | .dict _ entries final _ => .dict (valEntries entries ++ valDFinal final)
+  def valEntries : List (L × List Bool × L × List Bool) → List (PVal × PVal)
+    | [] => []
+    | (k, _, v, _) :: rest => (val k, val v) :: valEntries rest
+  def valDFinal : Option (L × List Bool × L) → List (PVal × PVal)
+    | none => []
+    | some (k, _, v) => [(val k, val v)]
   def valItems : List (L × List Bool) → List PVal
     | [] => []
     | (l, _) :: rest => val l :: valItems rest
@@ -121,6 +150,17 @@ mutual
         opTok "(" :: (triv j0 ++ (render f ++ (opTok "," :: (triv n1 ++
           (renderItems items ++ (renderFinal final ++ (opTok ")" :: triv j)))))))
     | .paren j0 x j => opTok "(" :: (triv j0 ++ (render x ++ (opTok ")" :: triv j)))
+    | .natom j1 v j => opTok "-" :: (triv j1 ++ (negTok v :: triv j))
+    | .strs s0 j0 more => strTok s0 :: (triv j0 ++ renderStrs more)
+    | .dict j0 entries final j =>
+        opTok "{" :: (triv j0 ++ (renderEntries entries ++ (renderDFinal final ++ (opTok "}" :: triv j))))
+  def renderEntries : List (L × List Bool × L × List Bool) → List Token
+    | [] => []
+    | (k, a, v, b) :: rest =>
+        render k ++ (opTok ":" :: (triv a ++ (render v ++ (opTok "," :: (triv b ++ renderEntries rest)))))
+  def renderDFinal : Option (L × List Bool × L) → List Token
+    | none => []
+    | some (k, a, v) => render k ++ (opTok ":" :: (triv a ++ render v))
   def renderItems : List (L × List Bool) → List Token
     | [] => []
     | (l, n) :: rest => render l ++ (opTok "," :: (triv n ++ renderItems rest))
@@ -136,6 +176,15 @@ mutual
     | .tuple0 _ _ => 2
     | .tuple _ f _ items final _ => 3 + size f + sizeItems items + sizeFinal final
     | .paren _ x _ => 3 + size x
+    | .natom _ _ _ => 1
+    | .strs _ _ _ => 1
+    | .dict _ entries final _ => 2 + sizeEntries entries + sizeDFinal final
+  def sizeEntries : List (L × List Bool × L × List Bool) → Nat
+    | [] => 0
+    | (k, _, v, _) :: rest => 1 + size k + size v + sizeEntries rest
+  def sizeDFinal : Option (L × List Bool × L) → Nat
+    | none => 0
+    | some (k, _, v) => 1 + size k + size v
   def sizeItems : List (L × List Bool) → Nat
     | [] => 0
     | (l, _) :: rest => 1 + size l + sizeItems rest
@@ -160,6 +209,14 @@ theorem clean_cons {t : Token} {ts : List Token} (ht : good t = true) (h : Clean
   · exact ht
   · exact h x hx
 
+theorem renderStrs_clean (more : List (String × List Bool)) : Clean (renderStrs more) := by
+  induction more with
+  | nil => intro t ht; simp [renderStrs] at ht
+  | cons x rest ih =>
+    obtain ⟨s, j⟩ := x
+    simp only [renderStrs]
+    exact clean_cons rfl (clean_append (triv_clean j) ih)
+
 mutual
   theorem render_clean (l : L) : Clean (render l) := by
     match l with
@@ -180,6 +237,29 @@ mutual
       simp only [render]
       exact clean_cons rfl (clean_append (triv_clean j0) (clean_append (render_clean x)
         (clean_cons rfl (triv_clean j))))
+    | .natom j1 v j =>
+      simp only [render]
+      exact clean_cons rfl (clean_append (triv_clean j1) (clean_cons rfl (triv_clean j)))
+    | .strs s0 j0 more =>
+      simp only [render]
+      exact clean_cons rfl (clean_append (triv_clean j0) (renderStrs_clean more))
+    | .dict j0 entries final j =>
+      simp only [render]
+      exact clean_cons rfl (clean_append (triv_clean j0) (clean_append (renderEntries_clean entries)
+        (clean_append (renderDFinal_clean final) (clean_cons rfl (triv_clean j)))))
+  theorem renderEntries_clean (entries : List (L × List Bool × L × List Bool)) : Clean (renderEntries entries) := by
+    match entries with
+    | [] => intro t ht; simp [renderEntries] at ht
+    | (k, a, v, b) :: rest =>
+      simp only [renderEntries]
+      exact clean_append (render_clean k) (clean_cons rfl (clean_append (triv_clean a)
+        (clean_append (render_clean v) (clean_cons rfl (clean_append (triv_clean b) (renderEntries_clean rest))))))
+  theorem renderDFinal_clean (final : Option (L × List Bool × L)) : Clean (renderDFinal final) := by
+    match final with
+    | none => intro t ht; simp [renderDFinal] at ht
+    | some (k, a, v) =>
+      simp only [renderDFinal]
+      exact clean_append (render_clean k) (clean_cons rfl (clean_append (triv_clean a) (render_clean v)))
   theorem renderItems_clean (items : List (L × List Bool)) : Clean (renderItems items) := by
     match items with
     | [] => intro t ht; simp [renderItems] at ht
@@ -192,10 +272,11 @@ mutual
     | some l => simp only [renderFinal]; exact render_clean l
 end
 
-/-- a rendering starts with `[`, `(` or an atom: never trivia, a closer or a comma -/
+/-- a rendering starts with an opener, a minus sign or an atom: never trivia, a closer, a comma or a colon -/
 theorem render_head (l : L) : ∃ t ts, render l = t :: ts ∧ skippable false t = false ∧
-    isOp t "]" = false ∧ isOp t ")" = false ∧ isOp t "," = false := by
-  cases l <;> simp [render, opTok, atomTok, skippable, isOp] <;> decide
+    isOp t "]" = false ∧ isOp t ")" = false ∧ isOp t "," = false ∧ isOp t "}" = false ∧
+    isOp t ":" = false := by
+  cases l <;> simp [render, opTok, atomTok, strTok, skippable, isOp] <;> decide
 
 theorem dropTriv_cons_of_not (t : Token) (ts : List Token) (h : skippable false t = false) :
     dropTriv (t :: ts) = t :: ts := by
@@ -253,8 +334,135 @@ theorem parseValue_atom (n : Nat) (v : Val) (j : List Bool) (rest : List Token) 
   simp only [h5, Bool.not_true, Bool.false_eq_true, if_false]
   simp [atomTok, adv_clean _ _ hc, dropTriv_triv]
 
+
+/-- what follows a value is not another string literal (it would be concatenated) -/
+def NoStr (rest : List Token) : Prop := (cur (dropTriv rest)).kind ≠ .string
+
+theorem noStr_op (s : String) (r : List Token) : NoStr (opTok s :: r) := by
+  unfold NoStr
+  rw [dropTriv_cons_of_not _ _ (closer_not_skippable s)]
+  simp [cur_cons, opTok]
+
+theorem parseValue_natom (n : Nat) (j1 : List Bool) (v : Val) (j : List Bool) (rest : List Token)
+    (hr : Clean rest) :
+    parseValue false (n + 1) (opTok "-" :: (triv j1 ++ (negTok v :: (triv j ++ rest)))) =
+      .ok (.lit v, dropTriv rest) := by
+  have hc2 : Clean (triv j ++ rest) := clean_append (triv_clean j) hr
+  have hc1 : Clean (triv j1 ++ (negTok v :: (triv j ++ rest))) :=
+    clean_append (triv_clean j1) (clean_cons rfl hc2)
+  have hneg : dropTriv (negTok v :: (triv j ++ rest)) = negTok v :: (triv j ++ rest) :=
+    dropTriv_cons_of_not _ _ (by simp [skippable, negTok])
+  simp only [parseValue, cur_cons]
+  have h1 : isOp (opTok "-") "[" = false := by simp [isOp_opTok]
+  have h2 : isOp (opTok "-") "(" = false := by simp [isOp_opTok]
+  have h3 : isOp (opTok "-") "{" = false := by simp [isOp_opTok]
+  have h4 : isOp (opTok "-") "-" = true := by simp [isOp_opTok]
+  simp only [h1, h2, h3, Bool.false_eq_true, if_false, parseBasic, cur_cons, h4, if_true,
+    adv_clean _ _ hc1, dropTriv_triv, hneg]
+  have h5 : isBasic (negTok v) = true := by simp [isBasic, negTok]
+  simp only [h5, Bool.not_true, Bool.false_eq_true, if_false]
+  simp [negTok, adv_clean _ _ hc2, dropTriv_triv]
+
+theorem length_renderStrs (more : List (String × List Bool)) : more.length ≤ (renderStrs more).length := by
+  induction more with
+  | nil => simp
+  | cons x rest ih => obtain ⟨s, j⟩ := x; simp only [renderStrs, List.length_cons, List.length_append]; omega
+
+theorem dropTriv_renderStrs (more : List (String × List Bool)) (rest : List Token) (hne : more ≠ []) :
+    dropTriv (renderStrs more ++ rest) = renderStrs more ++ rest := by
+  cases more with
+  | nil => exact absurd rfl hne
+  | cons x r =>
+    obtain ⟨s, j⟩ := x
+    simp only [renderStrs, List.cons_append]
+    exact dropTriv_cons_of_not _ _ (by simp [skippable, strTok])
+
+theorem moreStrings_render (more : List (String × List Bool)) (acc : String) (n : Nat)
+    (rest : List Token) (hr : Clean rest) (hns : NoStr rest) (hn : more.length ≤ n) :
+    moreStrings false n (.str acc) (dropTriv (renderStrs more ++ rest)) =
+      .ok (.str (acc ++ joinStrs more), dropTriv rest) := by
+  induction more generalizing acc n with
+  | nil =>
+    simp only [renderStrs, List.nil_append, joinStrs, String.append_empty]
+    cases n with
+    | zero => simp [moreStrings]
+    | succ n =>
+      have : ((cur (dropTriv rest)).kind == TKind.string) = false := by
+        unfold NoStr at hns; simpa using hns
+      simp [moreStrings, this]
+  | cons x more ih =>
+    obtain ⟨s, j⟩ := x
+    cases n with
+    | zero => simp at hn
+    | succ n =>
+      have hcl : Clean (triv j ++ (renderStrs more ++ rest)) :=
+        clean_append (triv_clean j) (clean_append (renderStrs_clean more) hr)
+      have hd : dropTriv (renderStrs ((s, j) :: more) ++ rest) =
+          strTok s :: (triv j ++ (renderStrs more ++ rest)) := by
+        rw [dropTriv_renderStrs _ _ (by simp)]; simp [renderStrs]
+      rw [hd]
+      simp only [moreStrings, cur_cons]
+      have hk : ((strTok s).kind == TKind.string) = true := by simp [strTok]
+      simp only [hk, if_true]
+      have ha : (strTok s).atom = some (.str s) := rfl
+      simp only [ha, concatAtoms, adv_clean _ _ hcl, dropTriv_triv]
+      rw [ih (acc ++ s) n (by simp at hn; omega)]
+      simp [joinStrs, String.append_assoc]
+
+theorem parseValue_strs (n : Nat) (s0 : String) (j0 : List Bool) (more : List (String × List Bool))
+    (rest : List Token) (hr : Clean rest) (hns : NoStr rest) :
+    parseValue false (n + 1) (strTok s0 :: (triv j0 ++ (renderStrs more ++ rest))) =
+      .ok (.lit (.str (s0 ++ joinStrs more)), dropTriv rest) := by
+  have hc : Clean (triv j0 ++ (renderStrs more ++ rest)) :=
+    clean_append (triv_clean j0) (clean_append (renderStrs_clean more) hr)
+  simp only [parseValue, cur_cons]
+  have h1 : isOp (strTok s0) "[" = false := by simp [isOp, strTok]
+  have h2 : isOp (strTok s0) "(" = false := by simp [isOp, strTok]
+  have h3 : isOp (strTok s0) "{" = false := by simp [isOp, strTok]
+  have h4 : isOp (strTok s0) "-" = false := by simp [isOp, strTok]
+  simp only [h1, h2, h3, Bool.false_eq_true, if_false, parseBasic, cur_cons, h4]
+  have h5 : isBasic (strTok s0) = true := by simp [isBasic, strTok]
+  simp only [h5, Bool.not_true, Bool.false_eq_true, if_false]
+  have ha : (strTok s0).atom = some (.str s0) := rfl
+  have hk : ((strTok s0).kind == TKind.string) = true := by simp [strTok]
+  simp only [ha, hk, adv_clean _ _ hc, dropTriv_triv, if_true]
+  have hlen : more.length ≤ (dropTriv (renderStrs more ++ rest)).length := by
+    cases more with
+    | nil => simp
+    | cons x r =>
+      rw [dropTriv_renderStrs _ _ (by simp)]
+      have := length_renderStrs (x :: r)
+      simp only [List.length_append]; omega
+  rw [moreStrings_render more s0 _ rest hr hns hlen]
+
+/-- what follows the entries of a dict: maybe a last entry, then the closer -/
+def dtail (final : Option (L × List Bool × L)) (j : List Bool) (rest : List Token) : List Token :=
+  renderDFinal final ++ (opTok "}" :: (triv j ++ rest))
+
+theorem dtail_clean (final : Option (L × List Bool × L)) (j : List Bool) (rest : List Token)
+    (hr : Clean rest) : Clean (dtail final j rest) :=
+  clean_append (renderDFinal_clean final) (clean_cons rfl (clean_append (triv_clean j) hr))
+
+theorem dropTriv_entries_tail (entries : List (L × List Bool × L × List Bool))
+    (final : Option (L × List Bool × L)) (j : List Bool) (rest : List Token) :
+    dropTriv (renderEntries entries ++ dtail final j rest) = renderEntries entries ++ dtail final j rest := by
+  cases entries with
+  | nil =>
+    cases final with
+    | none =>
+      simp only [renderEntries, dtail, renderDFinal, List.nil_append]
+      exact dropTriv_cons_of_not _ _ (closer_not_skippable "}")
+    | some e =>
+      obtain ⟨k, a, v⟩ := e
+      simp only [renderEntries, dtail, renderDFinal, List.nil_append, List.append_assoc]
+      exact dropTriv_render k _
+  | cons e rest' =>
+    obtain ⟨k, a, v, b⟩ := e
+    simp only [renderEntries, List.append_assoc]; exact dropTriv_render k _
+
 mutual
-  theorem parse_render (l : L) (n : Nat) (rest : List Token) (hr : Clean rest) (h : size l ≤ n) :
+  theorem parse_render (l : L) (n : Nat) (rest : List Token) (hr : Clean rest) (hns : NoStr rest)
+      (h : size l ≤ n) :
       parseValue false n (render l ++ rest) = .ok (val l, dropTriv rest) := by
     match l, n with
     | .atom v j, n+1 =>
@@ -316,7 +524,28 @@ mutual
           adv_clean _ _ hclean, dropTriv_triv, dropTriv_items_tail]
       simp only [hit]
       simp [valItems, valFinal]
-    | .atom .., 0 | .list .., 0 | .tuple0 .., 0 | .tuple0 .., 1 | .tuple .., 0 | .paren .., 0 =>
+    | .natom j1 v j, n+1 =>
+      simp only [render, List.cons_append, List.append_assoc, val]
+      exact parseValue_natom n j1 v j rest hr
+    | .strs s0 j0 more, n+1 =>
+      simp only [render, List.cons_append, List.append_assoc, val]
+      exact parseValue_strs n s0 j0 more rest hr hns
+    | .dict j0 entries final j, n+1 =>
+      have hsz : sizeEntries entries + sizeDFinal final + 1 ≤ n := by simp [size] at h; omega
+      have hit := parseDictItems_render entries final n j rest hr hsz
+      have hclean : Clean (triv j0 ++ (renderEntries entries ++ dtail final j rest)) :=
+        clean_append (triv_clean j0) (clean_append (renderEntries_clean entries) (dtail_clean final j rest hr))
+      simp only [render, List.cons_append, List.append_assoc, val, parseValue, cur_cons]
+      have h1 : isOp (opTok "{") "[" = false := by simp [isOp_opTok]
+      have h2 : isOp (opTok "{") "(" = false := by simp [isOp_opTok]
+      have h3 : isOp (opTok "{") "{" = true := by simp [isOp_opTok]
+      simp only [h1, h2, h3, Bool.false_eq_true, if_false, if_true]
+      rw [show triv j0 ++ (renderEntries entries ++ (renderDFinal final ++ (opTok "}" :: (triv j ++ rest)))) =
+            triv j0 ++ (renderEntries entries ++ dtail final j rest) from rfl,
+          adv_clean _ _ hclean, dropTriv_triv, dropTriv_entries_tail]
+      simp only [hit]
+    | .atom .., 0 | .list .., 0 | .tuple0 .., 0 | .tuple0 .., 1 | .tuple .., 0 | .paren .., 0
+    | .natom .., 0 | .strs .., 0 | .dict .., 0 =>
       simp [size] at h
   theorem parseItems_render (items : List (L × List Bool)) (final : Option L) (close : String)
       (hc1 : close = "]" ∨ close = ")") (n : Nat) (j : List Bool) (rest : List Token)
@@ -330,12 +559,12 @@ mutual
       have h1 : isOp (opTok close) close = true := by simp [isOp_opTok]
       simp [h1, adv_clean _ _ hclean, dropTriv_triv, valItems, valFinal]
     | [], some l, n+1 =>
-      obtain ⟨t, ts, hrd, _, hrb, hrp, hcm⟩ := render_head l
+      obtain ⟨t, ts, hrd, _, hrb, hrp, hcm, _, _⟩ := render_head l
       have hne : isOp t close = false := by rcases hc1 with rfl | rfl <;> assumption
       have hl : size l ≤ n := by simp [sizeItems, sizeFinal] at h; omega
       have hclean : Clean (triv j ++ rest) := clean_append (triv_clean j) hr
       have hclean2 : Clean (opTok close :: (triv j ++ rest)) := clean_cons rfl hclean
-      have hp := parse_render l n (opTok close :: (triv j ++ rest)) hclean2 hl
+      have hp := parse_render l n (opTok close :: (triv j ++ rest)) hclean2 (noStr_op _ _) hl
       simp only [renderItems, tailToks, renderFinal, List.nil_append]
       rw [hrd] at hp ⊢
       simp only [List.cons_append] at hp ⊢
@@ -346,7 +575,7 @@ mutual
         rcases hc1 with rfl | rfl <;> simp [isOp_opTok]
       simp [h1, h2, adv_clean _ _ hclean, dropTriv_triv, valItems, valFinal]
     | (l, k) :: more, final, n+1 =>
-      obtain ⟨t, ts, hrd, _, hrb, hrp, hcm⟩ := render_head l
+      obtain ⟨t, ts, hrd, _, hrb, hrp, hcm, _, _⟩ := render_head l
       have hne : isOp t close = false := by rcases hc1 with rfl | rfl <;> assumption
       have hl : size l ≤ n := by simp [sizeItems] at h; omega
       have hm : sizeItems more + sizeFinal final + 1 ≤ n := by simp [sizeItems] at h; omega
@@ -356,7 +585,7 @@ mutual
         clean_append (triv_clean k) hcl_tail
       have hcl2 : Clean (opTok "," :: (triv k ++ (renderItems more ++ tailToks final close j rest))) :=
         clean_cons rfl hcl1
-      have hp := parse_render l n (opTok "," :: (triv k ++ (renderItems more ++ tailToks final close j rest))) hcl2 hl
+      have hp := parse_render l n (opTok "," :: (triv k ++ (renderItems more ++ tailToks final close j rest))) hcl2 (noStr_op _ _) hl
       have hi := parseItems_render more final close hc1 n j rest hr hm
       simp only [renderItems, List.append_assoc]
       rw [hrd] at hp ⊢
@@ -366,6 +595,70 @@ mutual
       have h1 : isOp (opTok ",") "," = true := by simp [isOp_opTok]
       simp only [cur_cons, h1, if_true, adv_clean _ _ hcl1, dropTriv_triv, dropTriv_items_tail, hi]
       simp [valItems]
+    | _, _, 0 => omega
+  theorem parseDictItems_render (entries : List (L × List Bool × L × List Bool))
+      (final : Option (L × List Bool × L)) (n : Nat) (j : List Bool) (rest : List Token)
+      (hr : Clean rest) (h : sizeEntries entries + sizeDFinal final + 1 ≤ n) :
+      parseDictItems false n (renderEntries entries ++ dtail final j rest)
+        = .ok (valEntries entries ++ valDFinal final, dropTriv rest) := by
+    match entries, final, n with
+    | [], none, n+1 =>
+      have hclean : Clean (triv j ++ rest) := clean_append (triv_clean j) hr
+      simp only [renderEntries, dtail, renderDFinal, List.nil_append, parseDictItems, cur_cons]
+      have h1 : isOp (opTok "}") "}" = true := by simp [isOp_opTok]
+      simp [h1, adv_clean _ _ hclean, dropTriv_triv, valEntries, valDFinal]
+    | [], some (k, a, v), n+1 =>
+      obtain ⟨t, ts, hrd, _, _, _, _, hcb, _⟩ := render_head k
+      have hk : size k ≤ n := by simp [sizeEntries, sizeDFinal] at h; omega
+      have hv : size v ≤ n := by simp [sizeEntries, sizeDFinal] at h; omega
+      have hclean : Clean (triv j ++ rest) := clean_append (triv_clean j) hr
+      have hcl3 : Clean (opTok "}" :: (triv j ++ rest)) := clean_cons rfl hclean
+      have hcl2 : Clean (triv a ++ (render v ++ (opTok "}" :: (triv j ++ rest)))) :=
+        clean_append (triv_clean a) (clean_append (render_clean v) hcl3)
+      have hcl1 : Clean (opTok ":" :: (triv a ++ (render v ++ (opTok "}" :: (triv j ++ rest))))) :=
+        clean_cons rfl hcl2
+      have hpk := parse_render k n _ hcl1 (noStr_op _ _) hk
+      have hpv := parse_render v n _ hcl3 (noStr_op _ _) hv
+      simp only [renderEntries, dtail, renderDFinal, List.nil_append, List.append_assoc, List.cons_append]
+      rw [hrd] at hpk ⊢
+      simp only [List.cons_append] at hpk ⊢
+      simp only [parseDictItems, cur_cons, hcb, Bool.false_eq_true, if_false, hpk,
+        dropTriv_cons_of_not _ _ (closer_not_skippable ":")]
+      have h1 : isOp (opTok ":") ":" = true := by simp [isOp_opTok]
+      simp only [h1, Bool.not_true, Bool.false_eq_true, if_false, adv_clean _ _ hcl2, dropTriv_triv,
+        dropTriv_render, hpv, dropTriv_cons_of_not _ _ (closer_not_skippable "}"), cur_cons]
+      have h2 : isOp (opTok "}") "," = false := by simp [isOp_opTok]
+      have h3 : isOp (opTok "}") "}" = true := by simp [isOp_opTok]
+      simp [h2, h3, adv_clean _ _ hclean, dropTriv_triv, valEntries, valDFinal]
+    | (k, a, v, b) :: more, final, n+1 =>
+      obtain ⟨t, ts, hrd, _, _, _, _, hcb, _⟩ := render_head k
+      have hk : size k ≤ n := by simp [sizeEntries] at h; omega
+      have hv : size v ≤ n := by simp [sizeEntries] at h; omega
+      have hm : sizeEntries more + sizeDFinal final + 1 ≤ n := by simp [sizeEntries] at h; omega
+      have hcl_tail : Clean (renderEntries more ++ dtail final j rest) :=
+        clean_append (renderEntries_clean more) (dtail_clean final j rest hr)
+      have hcl4 : Clean (triv b ++ (renderEntries more ++ dtail final j rest)) :=
+        clean_append (triv_clean b) hcl_tail
+      have hcl3 : Clean (opTok "," :: (triv b ++ (renderEntries more ++ dtail final j rest))) :=
+        clean_cons rfl hcl4
+      have hcl2 : Clean (triv a ++ (render v ++ (opTok "," :: (triv b ++ (renderEntries more ++ dtail final j rest))))) :=
+        clean_append (triv_clean a) (clean_append (render_clean v) hcl3)
+      have hcl1 : Clean (opTok ":" :: (triv a ++ (render v ++ (opTok "," :: (triv b ++ (renderEntries more ++ dtail final j rest)))))) :=
+        clean_cons rfl hcl2
+      have hpk := parse_render k n _ hcl1 (noStr_op _ _) hk
+      have hpv := parse_render v n _ hcl3 (noStr_op _ _) hv
+      have hi := parseDictItems_render more final n j rest hr hm
+      simp only [renderEntries, List.append_assoc, List.cons_append]
+      rw [hrd] at hpk ⊢
+      simp only [List.cons_append] at hpk ⊢
+      simp only [parseDictItems, cur_cons, hcb, Bool.false_eq_true, if_false, hpk,
+        dropTriv_cons_of_not _ _ (closer_not_skippable ":")]
+      have h1 : isOp (opTok ":") ":" = true := by simp [isOp_opTok]
+      simp only [h1, Bool.not_true, Bool.false_eq_true, if_false, adv_clean _ _ hcl2, dropTriv_triv,
+        dropTriv_render, hpv, dropTriv_cons_of_not _ _ (closer_not_skippable ","), cur_cons]
+      have h2 : isOp (opTok ",") "," = true := by simp [isOp_opTok]
+      simp only [h2, if_true, adv_clean _ _ hcl4, dropTriv_triv, dropTriv_entries_tail, hi]
+      simp [valEntries]
     | _, _, 0 => omega
 end
 
